@@ -579,8 +579,41 @@ def run(ctx, deep=False):
     ctx.count("tie:modelled-generations:%s" % ",".join(map(str, gens)))
     scripts = c09.generated_scripts(ctx, gens, 5000 if thorough else 300)
     own = [sc for sc in scens if sc["gen"] in gens]
+    full_stack(ctx, thorough)
     scripts += [(sc["gen"], "c14." + sc["family"], sc["ops"]) for sc in own]
     c09.tie(ctx, scripts, "C14")
+
+
+def full_stack(ctx, thorough):
+    """closed loop: the real API object over the real socket against a console WITH MEMORY (it answers AC status and error-information
+    requests from its current state).  The console's AC error changes while the client is disconnected; after the reconnection the
+    client must converge to what the console reports then - code and the description that belongs to it."""
+    import re
+    import fullstack
+    texts = {0: b"", 5: b"ER05 compressor", 7: b"ER07 fan locked", 300: b"E300"}
+    cases = [(a, b) for a in (0, 5, 7) for b in (0, 5, 7, 300) if a != b]
+    for gen in (4, 5):
+        for (c0, c1) in cases:
+            for outage in ((100, 105, 200), (100, 105, 2700)) if thorough else ((100, 105, 200),):
+                refuse, lose, accept = outage
+                sc = dict(inst=fullstack.INST, horizon=accept + 200, ac_state=[dict(id=0, power=1, mode=4, fan=0, setpoint=22, temp=235, err=c0)],
+                          err_text={0: texts[c0]}, changes=[(lose + 15, 0, c1, texts[c1])], faults=[(refuse, "refuse"), (lose, "eof"), (accept, "accept")])
+                b = fullstack.run(gen, sc)
+                ctx.case(("full-stack-error", gen, c0, c1, accept))
+                if b.get("init_result") is not True:
+                    ctx.tie_broken("C14:console-script", "the full-stack console no longer initialises the AirTouch %d object" % gen)
+                    continue
+                m = re.search(r"error_info=(None|Err\(code=(\d+),description=(s[0-9a-f]*|None)\))", b["view"])
+                got = None if m is None or m.group(1) == "None" else (int(m.group(2)), None if m.group(3) == "None" else bytes.fromhex(m.group(3)[1:]))
+                want = None if c1 == 0 else (c1, texts[c1])
+                ctx.count("full-stack:error %d->%d:%s" % (c0, c1, "ok" if got == want else "differs"))
+                if got != want:
+                    ctx.violation("C14:%d:full-stack:error-info" % gen, "AirTouch %d over the real socket: the console's AC error was %s before the connection was lost and %s "
+                                  "when it came back (it answers AC status and error-information requests accordingly); %d ticks after the reconnection the client shows "
+                                  "error_info = %s" % (gen, (c0, texts[c0]), (c1, texts[c1]), 200, got), kind="history", level="full-stack", gen=gen,
+                                  scenario={k: (v if k != "err_text" else {kk: vv.decode() for kk, vv in v.items()}) for k, v in sc.items() if k not in ("inst", "changes")},
+                                  implementation_output=str(got), spec_verdict=str(want))
+                    break
 
 
 def search(ctx):
